@@ -1210,7 +1210,72 @@ fn sweep_tree(out: &mut Outputs) {
         let dv = Described { descriptor: serde_amqp::descriptor::Descriptor::Code(0x77), value: Value::Map(vm.clone()) };
         tree_one(out, &mut n, &l("Described<Value::Map keyed by Timestamp>"), &dv, false);
     }
+    // maps with a null key (an ordinary map may have one; only map-encoded composites end at a null key)
+    {
+        let mut on: BTreeMap<Option<u32>, i64> = BTreeMap::new();
+        on.insert(None, 7);
+        on.insert(Some(3), 8);
+        tree_one(out, &mut n, "BTreeMap<Option<u32>, i64> with a None key", &on, true);
+        let mut un: BTreeMap<(), String> = BTreeMap::new();
+        un.insert((), "x".into());
+        tree_one(out, &mut n, "BTreeMap<(), String>", &un, true);
+        let mut om: OrderedMap<Option<Symbol>, Option<u32>> = OrderedMap::new();
+        om.insert(Some(Symbol("a".into())), Some(1));
+        om.insert(None, Some(2));
+        om.insert(Some(Symbol("b".into())), None);
+        tree_one(out, &mut n, "OrderedMap<Option<Symbol>, Option<u32>> with a None key in the middle", &om, true);
+    }
     out.add("sweep_tree", n);
+}
+
+/// the AMQP frame decoder on arbitrary frame headers: every data offset, both frame types, bodies that are empty,
+/// too short, or a valid performative (C04: a value or an error, never a panic)
+fn sweep_frame_decoder(out: &mut Outputs) {
+    use bytes::BytesMut;
+    use tokio_util::codec::Decoder;
+    let open_body: Vec<u8> = vec![0x00, 0x53, 0x10, 0xc0, 0x04, 0x01, 0xa1, 0x01, 0x63];
+    let tails: Vec<Vec<u8>> = vec![vec![], vec![0x00], vec![0x00, 0x53], open_body.clone(), [open_body.clone(), vec![0xff; 9]].concat(), vec![0xff; 40]];
+    let mut n = 0u64;
+    for doff in 0u16..=255 {
+        for ftype in [0u8, 1, 2] {
+            for tail in &tails {
+                for channel in [0u16, 7] {
+                    let mut frame = vec![doff as u8, ftype];
+                    frame.extend(channel.to_be_bytes());
+                    frame.extend_from_slice(tail);
+                    n += 1;
+                    let f2 = frame.clone();
+                    let r = catch_unwind(AssertUnwindSafe(move || {
+                        let mut b = BytesMut::from(&f2[..]);
+                        let mut d = fe2o3_amqp::frames::amqp::FrameDecoder {};
+                        d.decode(&mut b).map(|o| o.is_some())
+                    }));
+                    if r.is_err() {
+                        out.violation(
+                            "c04-panic-frame-decoder",
+                            &format!("c04-panic-frame-decoder: FrameDecoder::decode panics on the frame (after the size field) {}", show(&frame)),
+                            &caseline("framedec", &frame),
+                        );
+                    }
+                }
+            }
+        }
+    }
+    // headers shorter than four octets
+    for l in 0..4usize {
+        n += 1;
+        let frame = vec![2u8; l];
+        let f2 = frame.clone();
+        let r = catch_unwind(AssertUnwindSafe(move || {
+            let mut b = BytesMut::from(&f2[..]);
+            let mut d = fe2o3_amqp::frames::amqp::FrameDecoder {};
+            d.decode(&mut b).map(|o| o.is_some())
+        }));
+        if r.is_err() {
+            out.violation("c04-panic-frame-decoder", &format!("c04-panic-frame-decoder: FrameDecoder::decode panics on {}", show(&frame)), &caseline("framedec", &frame));
+        }
+    }
+    out.add("sweep_frame_decoder", n);
 }
 
 /* ------------------------------------------------------------------------------------- */
@@ -1224,4 +1289,5 @@ pub fn sweeps(out: &mut Outputs, thorough: bool) {
     sweep_array_count(out);
     sweep_reader(out, &encs, &boundary);
     sweep_tree(out);
+    sweep_frame_decoder(out);
 }
